@@ -109,7 +109,7 @@ PROPERTIES = {
         assumptions=['derived Hash/Eq of PeerId obey the hash-set key model'],
     ),
     'C10': dict(
-        units=['active_peers', 'wire'],
+        units=['active_peers', 'wire', 'enum_cm'],
         canaries=['dialing', 'streams'],
         counterexample=cex.cex_c10,
         extra=[validate.admission_scenarios],
@@ -125,6 +125,7 @@ PROPERTIES = {
     'C13': dict(
         units=['active_peers', 'enum_cm'],
         canaries=['dialing'],
+        extra=[validate.busy_node_still_dials],
         scope='SAFETY clauses only. Back-off: every failure adds one to the count and the next attempt is allowed no sooner than min(max-backoff, k x step) '
               'after the failure was noticed (exact formula, strict comparison in the eligibility filter); who is dialed: the lifted filter closure equals the '
               'statement (High affinity, not self, has an address, not connected, not already being dialed, back-off elapsed); rotation: the lifted loop body dials '
